@@ -12,9 +12,11 @@ import json
 import os
 import re
 import subprocess
+import time
 
 from vlib.hostlist import HL, hx, unhx, names_field, Cli, VERIF_CORPUS
 from vlib.common import HARNESS
+from vlib import xcl as xclsys
 
 LEVEL = "proof"
 PROPS = "PdshVerif.Props.C02"
@@ -180,10 +182,12 @@ class Case:
         self.tags = set()
         self.timeout = 8
         self.wcoll_env = None    # value of the WCOLL environment variable (a file of `files`), None = unset
+        self.raw = {}        # name -> the bytes really written (comments, blank lines, #include ...; also files that are
+                             # only included); a file of `files` without an entry here holds one expression per line
 
     def to_json(self):
         return {"items": self.items, "opts": self.opts, "files": self.files, "tags": sorted(self.tags), "timeout": self.timeout,
-                "wcoll_env": self.wcoll_env}
+                "wcoll_env": self.wcoll_env, "raw": self.raw}
 
     @staticmethod
     def from_json(d):
@@ -194,17 +198,19 @@ class Case:
         c.tags = set(d.get("tags", []))
         c.timeout = d.get("timeout", 8)
         c.wcoll_env = d.get("wcoll_env")
+        c.raw = dict(d.get("raw") or {})
         return c
 
 
 def rebase(case, cwd):
     """files of a stored case live in the scratch directory of the run that wrote it: move them here"""
-    ren = {name: os.path.join(cwd, os.path.basename(name)) for name in case.files}
+    ren = {name: os.path.join(cwd, os.path.basename(name)) for name in list(case.files) + list(case.raw)}
     def sub(t):
-        for a, b in ren.items():
+        for a, b in sorted(ren.items(), key=lambda ab: -len(ab[0])):
             t = t.replace(a, b)
         return t
     case.files = {ren[k]: v for k, v in case.files.items()}
+    case.raw = {ren[k]: sub(v) for k, v in case.raw.items()}
     case.items = [(k, sub(t)) for k, t in case.items]
     case.opts = [(f, sub(a)) for f, a in case.opts]
     if case.wcoll_env:
@@ -469,16 +475,18 @@ def candidate_names(case):
     return out
 
 
-def run_real(cli, case):
-    args = ["-R", "exec", "-f", "1", "-N"]
-    for flag, arg in case.opts:
-        args += [flag, arg]
+def run_real(cli, case, mode="exec"):
+    """mode exec: `pdsh -R exec -f 1 -N OPTIONS echo %h` — the hosts really contacted, in order;
+       mode list: `pdsh -Q OPTIONS` — the target list pdsh would go on with (no host is contacted; 40 times cheaper).
+       A listing pdsh itself cuts (`[truncated]`, 1 KiB buffer) is answered by an exec run instead."""
+    opts = [x for o in case.opts for x in o]
+    args = ["-R", "exec", "-f", "1", "-N"] + opts + ["echo", "%h"] if mode == "exec" else ["-Q"] + opts
     def go(timeout):
         if not case.wcoll_env:
-            return cli.run(args + ["echo", "%h"], timeout=timeout)
+            return cli.run(args, timeout=timeout)
         env = {"PATH": "/usr/bin:/bin", "HOME": cli.cwd, "LC_ALL": "C", "WCOLL": case.wcoll_env}
         try:
-            p = subprocess.run([cli.pdsh] + args + ["echo", "%h"], stdout=subprocess.PIPE, stderr=subprocess.PIPE,
+            p = subprocess.run([cli.pdsh] + args, stdout=subprocess.PIPE, stderr=subprocess.PIPE,
                                cwd=cli.cwd, env=env, timeout=timeout, stdin=subprocess.DEVNULL)
             return p.returncode, p.stdout, p.stderr
         except subprocess.TimeoutExpired as e:
@@ -486,11 +494,23 @@ def run_real(cli, case):
     rc, out, err = go(case.timeout)
     if rc == "timeout":
         # a loaded machine is not a spinning pdsh: ask again with plenty of time
-        rc, out, err = go(case.timeout * 6)
+        rc, out, err = go(max(case.timeout * 6, 30))
     if rc == "timeout":
         return "timeout", None, b""
-    if rc == 0:
+    if rc == 0 and mode == "exec":
         return "ok", [l.decode("latin1") for l in out.split(b"\n") if l], err
+    if rc == 0:
+        lines = out.split(b"\n")
+        try:
+            i = lines.index(b"-- Target nodes --")
+        except ValueError:
+            return "garbled", None, err
+        text = b"\n".join(lines[i + 1:])
+        if text.endswith(b"\n"):
+            text = text[:-1]
+        if text.endswith(b"[truncated]"):
+            return run_real(cli, case, "exec")
+        return "ok", [h.decode("latin1") for h in text.split(b",") if h], err
     if b"no remote hosts specified" in err:
         return "nohosts", None, err
     if rc < 0 or rc >= 128 or b"Sanitizer" in err:
@@ -581,14 +601,33 @@ def model_spec(ctx, oracle, cases, d2):
 
 def write_files(case):
     for name, exprs in case.files.items():
+        if name not in case.raw:
+            with open(name, "w") as f:
+                f.write("".join(e + "\n" for e in exprs))
+    for name, text in case.raw.items():
         with open(name, "w") as f:
-            f.write("".join(e + "\n" for e in exprs))
+            f.write(text)
 
 
-def judge(ctx, cli, oracle, case, d2, dist, shrinking=False, pre=None):
+def judge(ctx, cli, oracle, case, d2, dist, shrinking=False, pre=None, modes=("list", "exec")):
+    """run the real pdsh on the case (the listing `-Q`, and/or the hosts really contacted), compare with the model and with
+    the specification; the first observation that shows a problem is the one reported"""
     write_files(case)
     m, s, bad = pre if pre is not None else model_spec(ctx, oracle, [case], d2)[0]
-    impl = run_real(cli, case)
+    tags = set()
+    for mode in modes:
+        tags = judge_one(ctx, cli, oracle, case, d2, dist, shrinking, m, s, bad, mode)
+        if tags:
+            break
+    return tags
+
+
+def judge_one(ctx, cli, oracle, case, d2, dist, shrinking, m, s, bad, mode):
+    t0 = time.time()
+    impl = run_real(cli, case, mode)
+    if not shrinking:
+        dist["seconds-" + mode] = round(dist.get("seconds-" + mode, 0) + time.time() - t0, 2)
+    verb = "contacts" if mode == "exec" else "lists (-Q)"
     ikind, ihosts = norm(impl[0], impl[1])
     mkind, mhosts = parse_model(m)
     tags = set()
@@ -599,10 +638,12 @@ def judge(ctx, cli, oracle, case, d2, dist, shrinking=False, pre=None):
         if (mk, mh) != (ikind, ihosts):
             tags.add("model-vs-impl")
             if not shrinking:
-                ctx.disagreement("hl xcl model vs pdsh", "pdsh %s: contacted %s %s, model %s %s" % (
-                    " ".join("%s '%s'" % o for o in case.opts)[:300], ikind, (ihosts or [])[:40], mk, (mh or [])[:40]),
-                    shrink(ctx, cli, oracle, case, d2, "model-vs-impl").to_json())
-    dist["impl-" + ikind] = dist.get("impl-" + ikind, 0) + (0 if shrinking else 1)
+                ctx.disagreement("hl xcl model vs pdsh", "pdsh %s: %s %s %s, model %s %s" % (
+                    " ".join("%s '%s'" % o for o in case.opts)[:300], verb, ikind, (ihosts or [])[:40], mk, (mh or [])[:40]),
+                    shrink(ctx, cli, oracle, case, d2, "model-vs-impl", mode).to_json())
+    if not shrinking:
+        dist["impl-" + ikind] = dist.get("impl-" + ikind, 0) + 1
+        dist["observed-" + mode] = dist.get("observed-" + mode, 0) + 1
     # --- oracle
     if s.startswith("ok "):
         shosts = [n.decode("latin1") for n in names_field(s[3:])[2]]
@@ -613,24 +654,25 @@ def judge(ctx, cli, oracle, case, d2, dist, shrinking=False, pre=None):
                 sig = "badregex-ignored"
                 tags.add("spec:" + sig)
                 if not shrinking:
-                    ctx.offender(sig, "pdsh goes on with a pattern regcomp() refuses: %s" % bad, shrink(ctx, cli, oracle, case, d2, "spec:" + sig).to_json())
+                    ctx.offender(sig, "pdsh goes on with a pattern regcomp() refuses: %s" % bad,
+                                 shrink(ctx, cli, oracle, case, d2, "spec:" + sig, mode).to_json())
         elif (sk, sh) != (ikind, ihosts):
             sig = classify(case, (ikind, ihosts), shosts)
             if "model-vs-impl" in tags:
                 sig += ":impl!=model"
             tags.add("spec:" + sig)
             if not shrinking:
-                ctx.offender(sig, "pdsh %s: contacts %s %s, the specification says %s" % (
-                    " ".join("%s '%s'" % o for o in case.opts)[:300], ikind, (ihosts or [])[:30], shosts[:30]),
-                    shrink(ctx, cli, oracle, case, d2, "spec:" + sig).to_json())
-        else:
-            dist["spec-agrees"] = dist.get("spec-agrees", 0) + (0 if shrinking else 1)
-    else:
-        dist["spec-" + s.split(":")[0]] = dist.get("spec-" + s.split(":")[0], 0) + (0 if shrinking else 1)
+                ctx.offender(sig, "pdsh %s: %s %s %s, the specification says %s" % (
+                    " ".join("%s '%s'" % o for o in case.opts)[:300], verb, ikind, (ihosts or [])[:30], shosts[:30]),
+                    shrink(ctx, cli, oracle, case, d2, "spec:" + sig, mode).to_json())
+        elif not shrinking:
+            dist["spec-agrees"] = dist.get("spec-agrees", 0) + 1
+    elif not shrinking:
+        dist["spec-" + s.split(":")[0]] = dist.get("spec-" + s.split(":")[0], 0) + 1
     return tags
 
 
-def shrink(ctx, cli, oracle, case, d2, tag):
+def shrink(ctx, cli, oracle, case, d2, tag, mode="exec"):
     """drop items one at a time while the same kind of problem stays; options rewritten plainly"""
     ctx.nshrunk = getattr(ctx, "nshrunk", 0) + 1
     if ctx.nshrunk > 10 or case.wcoll_env:      # ($WCOLL cases are short; their options are not rewritten)
@@ -648,6 +690,7 @@ def shrink(ctx, cli, oracle, case, d2, tag):
             t = Case()
             t.items = cur.items[:i] + cur.items[i + 1:]
             t.files = {k: v for k, v in cur.files.items() if any(x == k for _, x in t.items)}
+            t.raw = {k: v for k, v in cur.raw.items() if k in t.files or k not in cur.files}
             t.tags = set(cur.tags)
             t.timeout = cur.timeout
             t.opts = [(("-w" if k in ("tgt", "tfile", "keep") else "-x"),
@@ -655,7 +698,7 @@ def shrink(ctx, cli, oracle, case, d2, tag):
                       for k, x in t.items]
             budget -= 1
             try:
-                if t.items and tag in judge(ctx, cli, oracle, t, d2, {}, shrinking=True):
+                if t.items and tag in judge(ctx, cli, oracle, t, d2, {}, shrinking=True, modes=(mode,)):
                     cur = t
                     changed = True
                     break
@@ -695,6 +738,16 @@ def probe_2br(cli):
     if all(asfound):
         return False
     return None
+
+
+def modes_for(case, prof, spec_answer):
+    """which observations a case gets: the listing always; the hosts really contacted (one fork per host) for every
+    corpus / random / replayed case, and for every fifth case of the systematic classes"""
+    if not prof.startswith("sys:"):
+        return ("list", "exec")
+    if getattr(case, "sysidx", 0) % 5 == 0:
+        return ("list", "exec")
+    return ("list",)
 
 
 def load_corpus():
@@ -750,6 +803,11 @@ def run(ctx):
             for c in load_corpus():
                 cases.append(rebase(c, cli.cwd))
                 profs.append("corpus")
+            # the deterministic classes (vlib/xcl.py): the same command lines at every seed
+            for k, c in enumerate(xclsys.systematic(Case, cli.cwd, thorough=not ctx.quick())):
+                c.sysidx = k
+                cases.append(c)
+                profs.append([t for t in c.tags if t.startswith("sys:")][0])
             n = 260 if ctx.quick() else 5000
             profiles = ["free", "free", "free", "dup", "dup", "regex", "regex", "2br", "big", "span", "firstrange",
                         "envwcoll", "envwcoll"]
@@ -771,11 +829,11 @@ def run(ctx):
             cov["evaluations"] += 1
             dist["profiles"][prof] = dist["profiles"].get(prof, 0) + 1
             try:
-                judge(ctx, cli, oracle, case, d2, dist, pre=pre)
+                judge(ctx, cli, oracle, case, d2, dist, pre=pre, modes=modes_for(case, prof, pre[1]))
             except Exception as e:     # noqa
                 ctx.broken.append(("C-BROKEN", "check machinery", "%r on %s" % (e, json.dumps(case.to_json())[:600])))
                 break
-            for name in case.files:
+            for name in list(case.files) + list(case.raw):
                 try:
                     os.unlink(name)
                 except OSError:
